@@ -7,8 +7,11 @@
                         reproduce the output or the internal state (member map, deadline index) exactly.
      A kind 2 anywhere in the trace wins over a kind 1 at an earlier step.
    CTicker: real sentinel run: Count after the allowance must equal the number of non-expired entries
-     (expected) and no untimed / long-lived entry may be missing (lost). *)
-From VF Require Import Common.Base C12.Model C12.Spec C12.Interval.
+     (expected) and no untimed / long-lived entry may be missing (lost).
+   CRace: one race round on one key of a shared cache (Race.v): code 2 = the epilogue Get is not explained by
+     any linearisation of the round (step 0), code 6 = a racing Get is not (step 1); both kind 2
+     (RaceProofs.race_complete = no false alarm). Times relative to t0 as in CTrace. *)
+From VF Require Import Common.Base C12.Model C12.Spec C12.Interval C12.Race.
 Local Open Scope Z_scope.
 
 Record step := {
@@ -25,7 +28,8 @@ Record step := {
    run itself uses f64 *)
 Inductive case :=
 | CTrace (defttl g t0 : Z) (steps : list step)
-| CTicker (expected observed lost : nat).
+| CTicker (expected observed lost : nat)
+| CRace (defttl t0 : Z) (stores : list rstore) (gets : list (option entry)) (final : option entry).
 
 Definition entry_eqb (x y : entry) : bool := (fst x =? fst y) && (snd x =? snd y).
 Definition kent_eqb (x y : Z * entry) : bool := (fst x =? fst y) && entry_eqb (snd x) (snd y).
@@ -68,6 +72,11 @@ Definition reb_step (t0 : Z) (s : step) : step :=
      s_tw := t0 + s_a s + s_tw s; s_mem := map (reb_ent t0) (s_mem s);
      s_vis := map (fun p => (t0 + fst p, snd p)) (s_vis s) |}.
 
+Definition reb_obs (t0 : Z) (o : option entry) : option entry :=
+  match o with Some (v, d) => Some (v, reb t0 d) | None => None end.
+Definition reb_store (t0 : Z) (s : rstore) : rstore :=
+  {| r_op := r_op s; r_a := t0 + r_a s; r_b := t0 + r_a s + r_b s; r_ok := r_ok s |}.
+
 Definition check_case (c : case) : nat :=
   match c with
   | CTrace defttl g t0 rsteps =>
@@ -78,6 +87,12 @@ Definition check_case (c : case) : nat :=
       end
   | CTicker expected observed lost =>
       if Nat.eqb observed expected && Nat.eqb lost 0 then 0%nat else 2%nat
+  | CRace defttl t0 rstores rgets rfinal =>
+      let stores := map (reb_store t0) rstores in
+      let gets := map (reb_obs t0) rgets in
+      let final := reb_obs t0 rfinal in
+      if negb (final_ok defttl stores final) then 2%nat
+      else if negb (forallb (robs_ok defttl stores) gets) then 6%nat else 0%nat
   end.
 
 Definition mismatches (cs : list case) : list (nat * nat) := find_bad check_case cs.
